@@ -49,6 +49,7 @@ class FunSpec:
         until=None,
         callers=None,
         at_call=None,
+        cut_ensures=None,
     ):
         self.target = target
         self.module, self.qualname = target.split(":")
@@ -73,6 +74,9 @@ class FunSpec:
         # statement contract on a PREFIX of the body: the contract covers the statements before the first top-level
         # statement whose source starts with this text; the rest of the body is dropped (and said so in the evidence)
         self.until = until
+        # with until=: clauses proved where control falls through to the cut (default: `ensures`; `ensures` then also covers
+        # the returns inside the prefix)
+        self.cut_ensures = None if cut_ensures is None else list(cut_ensures)
         # statement assertions: {source text of a call in the body: [clauses]} - proved in the state just before that call
         # (locals visible, old() = function entry); a key that matches no call of the body is an error
         self.at_call = {k: list(v) for k, v in (at_call or {}).items()}
